@@ -447,6 +447,9 @@ func (w *worker) runC05(c *Case, pw, dw string) error {
 	if c.src != "box_last" && c.src != "box_inner" && c.src != "replay" {
 		reps = []Rep{repSimple} // other representations are C11's business
 	}
+	if c.src == "replay" && c.p.endsInDescent() {
+		reps = []Rep{repSimple, repGen, repUser} // (a trailing descent on typed data is not modelled)
+	}
 	qs := []query{{"spec", "any.map", "-"}}
 	for _, r := range reps {
 		qs = append(qs, query{"get", r.String(), pinnedFlags}, query{"gets", r.String(), pinnedFlags})
